@@ -17,6 +17,7 @@ import (
 	"github.com/cloudwego/thriftgo/generator/golang"
 	"github.com/cloudwego/thriftgo/parser"
 	"github.com/cloudwego/thriftgo/plugin"
+	"github.com/cloudwego/thriftgo/utils/dir_utils"
 )
 
 type kind struct {
@@ -123,6 +124,72 @@ func main() {
 			}
 			os.RemoveAll(dir)
 		}
+	}
+	// SDK mode: an announced working directory (dir_utils.SetGlobalwd) that is not the process's, and
+	// relative file names: every file belongs under the announced directory
+	{
+		wd := filepath.Join(root, "announced")
+		cwd := filepath.Join(root, "process-cwd")
+		os.MkdirAll(wd, 0o755)
+		os.MkdirAll(cwd, 0o755)
+		old, _ := os.Getwd()
+		os.Chdir(cwd)
+		dir_utils.SetGlobalwd(wd)
+		g := new(generator.Generator)
+		g.RegisterBackend(new(golang.GoBackend))
+		ast, _ := parser.ParseString("z.thrift", "namespace go z\nstruct Z { 1: i32 a }\n")
+		req := &plugin.Request{Version: "v", OutputPath: "warmup", AST: ast, Language: "go"}
+		res := g.Generate(&generator.Arguments{Out: &generator.LangSpec{Language: "go"}, Req: req, Log: quiet})
+		if res.GetError() == "" {
+			for _, seq := range seqs {
+				if len(seq) > 2 {
+					continue
+				}
+				r := plugin.NewResponse()
+				want := map[string]string{}
+				var names []string
+				for pos, ki := range seq {
+					k := kinds[ki]
+					rel := filepath.Join("gen", fmt.Sprintf("s%d", evals), fmt.Sprintf("f%d", pos), k.file)
+					c := k.content + fmt.Sprintf("// %d\n", pos)
+					if k.name == "empty-go" {
+						c = ""
+					}
+					name := rel
+					r.Contents = append(r.Contents, &plugin.Generated{Name: &name, Content: c})
+					w := c
+					if filepath.Ext(rel) == ".go" {
+						if f, err := format.Source([]byte(c)); err == nil {
+							w = string(f)
+						}
+					}
+					want[rel] = w
+					names = append(names, k.name)
+				}
+				evals++
+				rp := map[string]any{"announced_wd": "announced", "process_cwd": "process-cwd", "files": names, "relative_names": true}
+				if err := g.Persist(r); err != nil {
+					viols = append(viols, viol{"persist-fails-on-writable-files:sdk-wd", fmt.Sprintf("Persist(%v) with an announced working directory fails: %v", names, err), rp})
+					continue
+				}
+				for rel, w := range want {
+					b, err := os.ReadFile(filepath.Join(wd, rel))
+					if err != nil {
+						where := "nowhere"
+						if _, e2 := os.Stat(filepath.Join(cwd, rel)); e2 == nil {
+							where = "under the process's working directory"
+						}
+						viols = append(viols, viol{"success-but-file-not-under-announced-wd", fmt.Sprintf("Persist(%v) returns success; %s is not under the announced working directory (found %s)", names, rel, where), rp})
+						break
+					}
+					if string(b) != w {
+						viols = append(viols, viol{"success-but-content-wrong:sdk-wd", fmt.Sprintf("%s under the announced directory holds %q, want %q", rel, clip(string(b)), clip(w)), rp})
+						break
+					}
+				}
+			}
+		}
+		os.Chdir(old)
 	}
 	json.NewEncoder(os.Stdout).Encode(map[string]any{"evaluations": evals, "violations": viols})
 }
